@@ -44,7 +44,8 @@ func (e *Engine) VerifyFunc(fn *ssa.Function, ct *spec.FuncContract) (res *FuncR
 		calleeOrd: map[string]int{}, Abstracted: map[string]int{}, exitMerge: map[vkey]Val{}, faDecl: map[string]bool{},
 		usedTrusted: map[string]bool{}, checks: defaultChecks(), acMatched: map[*spec.AtCall]int{}, uncontracted: map[string]int{},
 		calledContracts: map[string]bool{}, dynType: map[ssa.Value]types.Type{}, closureOf: map[ssa.Value]*ssa.Function{},
-		nodeNames: map[node]map[string]Val{}}
+		nodeNames: map[node]map[string]Val{}, addrNames: map[string]ssa.Value{}, loopHdrNames: map[*loopInfo]map[string]Val{},
+		loopHdrState: map[*loopInfo]*State{}, outNames: map[node]map[string]Val{}}
 	if fn.Blocks == nil {
 		return nil, fmt.Errorf("%s has no body", FuncKey(fn))
 	}
@@ -252,7 +253,7 @@ func (f *FnVC) execNode(n node) {
 		for _, r := range t.Results {
 			rs = append(rs, f.get(r))
 		}
-		f.atReturn(st, rs, t)
+		f.returns = append(f.returns, retRec{st: st, rs: rs, ret: t, names: copyNames(f.nodeNames[n])})
 	case *ssa.Panic:
 		f.atPanic(st, t)
 	}
@@ -424,10 +425,18 @@ func (f *FnVC) assumeInvariant(li *loopInfo, st *State, names map[string]Val) {
 }
 
 // atReturn: postconditions.
-func (f *FnVC) atReturn(st *State, rs []Val, ret *ssa.Return) {
+type retRec struct {
+	st    *State
+	rs    []Val
+	ret   *ssa.Return
+	names map[string]Val
+}
+
+func (f *FnVC) atReturn(st *State, rs []Val, ret *ssa.Return, names map[string]Val) {
 	if f.Ct == nil {
 		return
 	}
+	f.localNames = names
 	env := f.bodyEnv(st)
 	// parameters in postconditions denote their entry values
 	for k, v := range f.params {
@@ -494,6 +503,10 @@ func (f *FnVC) atPanic(st *State, p *ssa.Panic) {
 func (f *FnVC) finish() {
 	if f.Ct == nil {
 		return
+	}
+	// postconditions are evaluated after the whole body so that they may refer to any labelled call site
+	for _, r := range f.returns {
+		f.atReturn(r.st, r.rs, r.ret, r.names)
 	}
 	for _, ac := range append(append([]*spec.AtCall{}, f.Ct.AtCalls...), f.Ct.AtStores...) {
 		if f.acMatched[ac] == 0 {
